@@ -190,6 +190,8 @@ class Builder:
                 args.append(x)
             elif isinstance(a, tuple) and a and a[0] == "PyTuple":
                 args.append(tuple(self.b(x, env) for x in a[1:]))
+            elif isinstance(a, tuple) and a and a[0] == "PyInt":
+                args.append(int(a[1]))          # a Python int argument (slot ids, constant indices)
             else:
                 args.append(self.b(a, env))
         return obj(*args)
@@ -232,6 +234,13 @@ class Builder:
 
     def b_SlotIndex(self, e, env):
         return self.vars[e[1]].index()
+
+    # scratch access through a computed slot number (TEAL-vs-TEAL families only: no reference semantics)
+    def b_LoadAt(self, e, env):
+        return pt.ScratchLoad(slot=None, type=pt.TealType.anytype, index_expression=self.b(e[1], env))
+
+    def b_StoreAt(self, e, env):
+        return pt.ScratchStore(None, self.b(e[2], env), index_expression=self.b(e[1], env))
 
     def b_Param(self, e, env):
         v = env[e[1]]
